@@ -39,6 +39,7 @@ def specStep (c : Cfg) (scn : String) (cd : CallDef) (vars : Vars Char) : Outcom
   let payload := cd.payload.map fun (fname, kind, t) => (fname, pvalOf kind (String.ofList (render vars t)))
   let md := cd.md.map fun (k, t) => (k, String.ofList (render vars t))
   let tag := scn ++ ".t" ++ cd.name
+  if callBad cd then ({ calls := [], samples := [sampleText tag 0] }, false, none) else
   match lookupMethod cd.call with
   | none => ({ calls := [], samples := [sampleText tag 0] }, false, none)
   | some (m, fs) =>
